@@ -43,6 +43,7 @@ def rules(ctx):
     c194(ctx)
     c195(ctx)
     c196(ctx)
+    c197(ctx)
 
 
 def builder_params(f):
@@ -544,3 +545,42 @@ def c196(ctx):
     # no floor: a writer without any zip() satisfies the clause (the matcher itself is exercised by mutants/C19__sparse_levels_zipped.patch
     # and by the two adjacent-pairs zips on today's tree, which are recorded as discharged obligations)
     ctx.notes.append("C19.6 examined %d zip() calls in index writers" % n)
+
+
+# ------------------------------------------------------------------------------------------------
+# C19.7 select never answers a position beyond the vector (the last word is zero-padded: positions in the padding are not zeros of the vector)
+
+def c197(ctx):
+    R = "C19.7"
+    ctx.declare(R, "the rrr bit vectors' select answers Some(position) only after comparing that position with len(): the final 63-bit word is "
+                   "zero-padded, and a position inside the padding is not a zero of the vector (backward search takes None for `no further occurrence`)")
+    n = 0
+    for f in sorted(ctx.prog.fns.values(), key=lambda f: f.key):
+        if not re.match(r"^scrunch::bit_vector::(rrr|cf_rrr)::BitVector::select_helper$", f.skey):
+            continue
+        for b in f.blocks:
+            for i, st in enumerate(b.st):
+                if st["s"] != "=" or st["lhs"]["l"] != 0 or st["lhs"]["p"]:
+                    continue
+                rv = st["rv"]
+                if not (rv["r"] == "agg" and rv.get("variant") == "Some"):
+                    continue
+                o = rv["ops"][0]
+                if o.get("k") == "const":
+                    continue
+                n += 1
+                ans = K.base_locals(f, o)
+                ok = False
+                for g in K.compare_guards(f, (b.idx, i), user_only=False):
+                    a_len = any(x["k"] == "call" and x["callee"].endswith("::len") for x in P.origins(f, g["a"]))
+                    b_len = any(x["k"] == "call" and x["callee"].endswith("::len") for x in P.origins(f, g["b"]))
+                    other = g["b"] if a_len else g["a"]
+                    if (a_len or b_len) and (K.base_locals(f, other) & ans):
+                        inrange = (g["op"], g["holds"], a_len) in (("Gt", False, False), ("Le", True, False), ("Ge", True, True), ("Lt", False, True),
+                                                                  ("Lt", True, False), ("Ge", False, False), ("Gt", True, True), ("Le", False, True))
+                        ok = ok or inrange
+                ctx.check(R, f, "answer-within-len", ok, "a position is answered only after it compared within len()",
+                          "%s answers Some(position) without comparing the position with len(): in the zero-padded last word select0 reports zeros "
+                          "that the vector does not have, and the psi wavelet tree's upper bound comes out one too high (count of an absent pattern is 1)"
+                          % f.skey, pt=(b.idx, i))
+    ctx.floor(R, "non-constant answers of the rrr select helpers", n, 2)
